@@ -1039,14 +1039,54 @@ func ruleT7c(c *Ctx) *RuleResult {
 		}
 		return nil, false
 	}
+	// a helper of the package that fixes the last part's size and returns its end: every non-constant return is an
+	// end value, and the size of the same part is stored before it
+	endHelper := func(v ssa.Value) bool {
+		hc, ok := v.(*ssa.Call)
+		if !ok || hc.Call.StaticCallee() == nil || !storagePkg(hc.Call.StaticCallee()) || hc.Call.StaticCallee().Blocks == nil {
+			return false
+		}
+		h := hc.Call.StaticCallee()
+		okAll, any := true, false
+		for _, b := range h.Blocks {
+			ret, isRet := b.Instrs[len(b.Instrs)-1].(*ssa.Return)
+			if !isRet || len(ret.Results) != 1 {
+				continue
+			}
+			rv := retVal(ret, 0)
+			if k, isK := constInt(rv); isK && k == 0 {
+				continue
+			}
+			base, isE := isEnd(rv)
+			if !isE {
+				okAll = false
+				continue
+			}
+			fixed := false
+			for _, st := range storesToField(c, h, sizeF) {
+				if _, sb := fieldOfAddr(st.Addr); sb == base && instrReaches(st, ret) {
+					fixed = true
+				}
+			}
+			if !fixed {
+				okAll = false
+			}
+			any = true
+		}
+		return okAll && any
+	}
 	// NewPart: the offset given to newPartDisk is phi(0, last.offset + last.size), and last.size was stored before
 	allInstrs(np, func(in ssa.Instruction) {
 		call, ok := in.(*ssa.Call)
 		if !ok || call.Call.StaticCallee() != mk {
 			return
 		}
-		off := call.Call.Args[1]
+		off := call.Call.Args[len(call.Call.Args)-1]
+		if len(call.Call.Args) >= 2 && isTimestampType(call.Call.Args[1].Type()) {
+			off = call.Call.Args[1]
+		}
 		okShape := false
+		viaHelper := false
 		var last ssa.Value
 		if phi, ok := off.(*ssa.Phi); ok {
 			zero, end := false, false
@@ -1056,11 +1096,15 @@ func ruleT7c(c *Ctx) *RuleResult {
 				} else if b, isE := isEnd(e); isE {
 					end = true
 					last = b
+				} else if endHelper(e) {
+					end, viaHelper = true, true
 				}
 			}
 			okShape = zero && end && len(phi.Edges) == 2
+		} else if endHelper(off) {
+			okShape, viaHelper = true, true
 		}
-		sizeFixed := false
+		sizeFixed := viaHelper
 		if last != nil {
 			for _, st := range storesToField(c, np, sizeF) {
 				if _, b := fieldOfAddr(st.Addr); b == last && instrDominates(st, call) || reachFromTo(np, st.Block(), call.Block()) && b == last {
@@ -1069,6 +1113,8 @@ func ruleT7c(c *Ctx) *RuleResult {
 			}
 		}
 		switch {
+		case !okShape && len(storesToField(c, np, sizeF)) == 0:
+			r.undecided("T7c: fileDisk.NewPart computes the offset of the new part in a form not known to the rule (%s)", off.String())
 		case !okShape:
 			r.fail("fileDisk.NewPart|offset", c.Pos(call.Pos()), FuncName(np), "a new part starts at 0 or at previous offset + previous size", "offset argument is "+off.String())
 		case !sizeFixed:
@@ -1078,12 +1124,15 @@ func ruleT7c(c *Ctx) *RuleResult {
 		}
 	})
 	okFinal := false
-	for _, st := range storesToField(c, fin, finalF) {
-		if _, ok := isEnd(st.Val); ok {
+	finStores := storesToField(c, fin, finalF)
+	for _, st := range finStores {
+		if _, ok := isEnd(st.Val); ok || endHelper(st.Val) {
 			okFinal = true
 		}
 	}
-	if okFinal {
+	if len(finStores) == 0 {
+		r.undecided("T7c: fileDisk.Finalize does not store finalSize itself: form not known to the rule")
+	} else if okFinal {
 		r.ok("fileDisk.Finalize|final-size", c.Pos(fin.Pos()), FuncName(fin), "the file size is the end of its last part", "last.offset + last.size")
 	} else {
 		r.fail("fileDisk.Finalize|final-size", c.Pos(fin.Pos()), FuncName(fin), "the file size is the end of its last part", "finalSize is not last.offset + last.size")
